@@ -2,6 +2,6 @@
 # Regenerates coq/Codec/Golden.v from the translator's current output (run by hand when the wire
 # layout of the pinned tree is (re)confirmed; never run by the checks).
 cd "$(dirname "$0")"
-sed -e 's/\benc_\([a-z]\)/g_enc_\1/g; s/\bdec_\([a-z]\)/g_dec_\1/g; s/gen_types/golden_types/; s/gen_opaque/golden_opaque/; s/gen_fields/golden_fields/' \
+sed -e 's/\benc_\([a-z]\)/g_enc_\1/g; s/\bdec_\([a-z]\)/g_dec_\1/g; s/gen_types/golden_types/; s/gen_opaque/golden_opaque/; s/gen_fields/golden_fields/; s/gen_written/golden_written/' \
     -e 's/^(\* GENERATED.*/(* Golden copy of the translator output for the pinned tree: the wire layout as implemented there. Made by make_golden.sh. *)/' \
     coq/Gen/Schemas.v > coq/Codec/Golden.v
